@@ -18,6 +18,21 @@ theorem classify_translated (env : TW.Env) (img : List Nat) (tbl : Option Table)
   rw [derive_session_event_eq env img tbl our hb hl hour horacle hwf]
   exact C11.classify img tbl our
 
+/-- the classification of the translated function depends on the `frame_len` bytes it was told about and on nothing behind them: whatever
+    the receive buffer holds after the frame (the previous frame's tail, fresh heap), the event is the same - and it is the specified one -/
+theorem classify_translated_any_tail (env : TW.Env) (img t : List Nat) (tbl : Option Table) (our : Mac)
+    (hb : isBytes img) (hl : img.length < 18446744073709551616) (hour : our.length = 6)
+    (horacle : env.session_table_find = findOracle tbl) (hwf : TableWf tbl) :
+    holdsC11 img (C11.sessionsOf tbl) our (TW.derive_session_event env (img ++ t) img.length [] our).ret = true := by
+  rw [derive_tail_eq env img t tbl our hb hl hour horacle hwf]
+  exact C11.classify img tbl our
+
+theorem tail_independent_translated (env : TW.Env) (img t t' : List Nat) (tbl : Option Table) (our : Mac)
+    (hb : isBytes img) (hl : img.length < 18446744073709551616) (hour : our.length = 6)
+    (horacle : env.session_table_find = findOracle tbl) (hwf : TableWf tbl) :
+    (TW.derive_session_event env (img ++ t) img.length [] our).ret = (TW.derive_session_event env (img ++ t') img.length [] our).ret :=
+  derive_tail_independent env img t t' tbl our hb hl hour horacle hwf
+
 /-- the hypotheses are satisfiable: an empty table behind the lookup, a 40-byte image -/
 example : TableWf (some Table.create) ∧ isBytes (List.replicate 40 0) := by
   refine ⟨?_, ?_⟩
